@@ -647,7 +647,7 @@ func (n *node) RouteUnlinkPID(pid gen.PID, target gen.PID) error {
 	}
 
 	if err := connection.UnlinkPID(pid, target); err != nil {
-		return nil
+		return err
 	}
 
 	return n.targetManager.RemoveLink(pid, target)
